@@ -4,5 +4,5 @@ n=$1; shift
 t=$(mktemp -d /tmp/trytwin.XXXXXX)
 rsync -a --exclude .git /repo/ $t/
 (cd $t && patch -p1 -s < /verif/refactors/$n/patch.diff) || { echo "PATCH DOES NOT APPLY"; rm -rf $t; exit 2; }
-for p in "$@"; do MDS_DUMP=${MDS_DUMP:-} /verif/bin/mdscheck -prop $p -tier quick -repo $t -evidence none 2>&1 | grep -v "^KNOWN-FINDING" | cut -c1-${W:-400}; done
+for p in "$@"; do MDS_DUMP=${MDS_DUMP:-} ${MDSCHECK:-/verif/bin/mdscheck} -prop $p -tier quick -repo $t -evidence none 2>&1 | grep -v "^KNOWN-FINDING" | cut -c1-${W:-400}; done
 rm -rf $t
